@@ -15,6 +15,13 @@ import (
 
 const p09 = "C09"
 
+// prevPage remembers a page a query returned, to re-read it after later queries.
+type prevPage struct {
+	col jsonapi.Collection
+	ids []string
+	q   string
+}
+
 // toFilter materialises a filter spec as the library's Filter. Values are
 // cloned: the library sorts ID lists in place.
 func toFilter(f *model.FilterSpec) *jsonapi.Filter {
@@ -308,7 +315,21 @@ func (s *sim) rangeQuery() *core.Violation {
 	}
 
 	q := fmt.Sprintf("Range(%s of %d, ids=%q, filter=%s, sort=%q, size=%d, number=%d)", kind, n, ids, fs.Describe(), rules, size, num)
-	before := idsOf(col)
+
+	// the input's members and order before the call: from the model for the store
+	// itself (reading it would make every stored resource tidy its lazy state just
+	// before the query), from the collection for the freshly built twins
+	var before []string
+
+	if kind == "softcollection" {
+		for _, r := range s.m.recs {
+			before = append(before, r.ID)
+		}
+	} else {
+		before = idsOf(col)
+	}
+
+	var lastRes jsonapi.Collection
 
 	call := func(c jsonapi.Collection, sz, nm uint) (page []string, isNil bool, p *core.Panic) {
 		p = core.Call(func() {
@@ -318,10 +339,26 @@ func (s *sim) rangeQuery() *core.Violation {
 				return
 			}
 
+			lastRes = res
 			page = idsOf(res)
 		})
 
 		return page, isNil, p
+	}
+
+	// a page returned earlier must still hold what it held, whatever was asked since
+	if s.prev != nil {
+		var now []string
+
+		if p := core.Call(func() { now = idsOf(s.prev.col) }); p != nil {
+			return viol(p09, "no-panic", p.Func, "reread-earlier-page:"+p.Class, "reading a page returned earlier panicked: %s", p.Value)
+		}
+
+		if strings.Join(now, "\x00") != strings.Join(s.prev.ids, "\x00") {
+			return viol(p09, "result-stable", "Range", "earlier-page", "a page returned by %s\n    held %q and holds %q after a later Range call", s.prev.q, s.prev.ids, now)
+		}
+
+		s.st.Inc("probe:earlier-page-reread")
 	}
 
 	page, isNil, p := call(col, size, num)
@@ -410,6 +447,8 @@ func (s *sim) rangeQuery() *core.Violation {
 		return v
 	}
 
+	first := lastRes
+
 	if after := idsOf(col); strings.Join(after, "\x00") != strings.Join(before, "\x00") {
 		return viol(p09, "input-untouched", "Range", kind, "%s changed the input collection: %q -> %q", q, before, after)
 	}
@@ -470,6 +509,26 @@ func (s *sim) rangeQuery() *core.Violation {
 
 		if strings.Join(pp, "\x00") != strings.Join(page, "\x00") {
 			return viol(p09, "order-independent-with-id", "Range", cls, "%s returned %q, and %q for the same records in order %v", q, page, pp, perm)
+		}
+	}
+
+	s.prev = &prevPage{col: first, ids: page, q: q}
+
+	// a page is a collection too: ranging over it must leave it alone
+	if first != nil && len(page) >= 2 && t.Bool(1, 3) {
+		var again []string
+
+		if p := core.Call(func() {
+			_ = jsonapi.Range(first, nil, toFilter(fs), []string{"-id"}, 1, 0)
+			again = idsOf(first)
+		}); p != nil {
+			return viol(p09, "no-panic", p.Func, "range-over-page:"+p.Class, "Range over a page returned earlier panicked: %s", p.Value)
+		}
+
+		s.st.Inc("probe:range-over-earlier-page")
+
+		if strings.Join(again, "\x00") != strings.Join(page, "\x00") {
+			return viol(p09, "input-untouched", "Range", "page-as-input", "Range over the page %q returned by %s changed it to %q", page, q, again)
 		}
 	}
 
